@@ -31,7 +31,7 @@ CFGCLS = 'xdoctest.doctest_example.DoctestConfig'
 
 
 def run(ctx):
-    for fn in (r1_one_collector, r2_one_option_table, r3_record_iff_raise, r4_skip_predicates, r5_disabled, r5b_disable_marker_anchored):
+    for fn in (r1_one_collector, r2_one_option_table, r3_record_iff_raise, r4_skip_predicates, r5_disabled, r5b_disable_marker_anchored, r3b_raise_only_after_record, r6_exit_status):
         ctx.rep.rule(fn, ctx)
 
 
@@ -214,6 +214,39 @@ def r3_record_iff_raise(ctx):
                ('in raise mode the recorded failure does not leave run() by raise' if not ok1 else 'in return mode the recorded failure raises or keeps looping'), anchor=RUN)
 
 
+def r3b_raise_only_after_record(ctx):
+    """the converse of R3: a raise that is taken only in raise mode (pytest) must belong to a recorded failure.  A mode-dependent raise
+    without a fail store makes pytest see an exception (skip / error) where the native runner, which never uses raise mode, sees nothing."""
+    rr = run_roles(ctx)
+    rep = ctx.rep
+    f = rr.f
+    g = rr.g
+    dom = ctx.dom(g, rr.iter_entry, rr.cut)
+    n = 0
+    for rn in g.nodes:
+        if rn.kind != 'stmt' or rn.dup or not isinstance(rn.ast, ast.Raise) or not rr.in_loop(rn) or not dom.has(rn):
+            continue
+        guards = [b for b in dom.guards(rn) if b.kind == 'branch' and b.attrs['test'].kind == 'test' and rr.is_on_error_raise_test(b.attrs['test'].ast)[0]
+                  and b.attrs['polarity'] == rr.is_on_error_raise_test(b.attrs['test'].ast)[1]]
+        if not guards:
+            continue
+        n += 1
+        # every path from the iteration entry to this raise passes a fail store
+        wit = graph.must_pass([rr.iter_entry], lambda x: x is rn, through=rr.fail_stores, stop=[rr.loop])
+        rep.ob('C15.R3b', ctx.loc(f, rn.ast), 'raise under on_error == raise', wit is None,
+               'the mode-dependent raise belongs to a recorded failure' if wit is None else
+               'in raise mode (pytest) this handler re-raises although no failure was recorded: the pytest item ends with that exception (skipped / error) while the native runner, '
+               'which runs in return mode, reports the same doctest as passed', witness=None if wit is None else graph.fmt_path(wit, f.module.relpath), anchor=RUN)
+    rep.floor('C15.R3b', 'mode-dependent raises in the part loop', n, 4)
+
+
+def r6_exit_status(ctx):
+    """both front ends exit non-zero exactly when some doctest failed: native side (same clause as C10.R4)"""
+    from . import c10
+    from .common import run_as
+    run_as(ctx, c10.r4_exit_status, 'C10.R4', 'C15.R6')
+
+
 def r4_skip_predicates(ctx):
     rr = run_roles(ctx)
     rep = ctx.rep
@@ -333,6 +366,8 @@ RN = 'xdoctest/runner.py'
 DE = 'xdoctest/doctest_example.py'
 MA = 'xdoctest/__main__.py'
 VARIANTS = [
+    fire('skipped-reraised-in-raise-mode', 'C15.R3b', (DE, "                except (exceptions.ExitTestException,\n                        exceptions._pytest.outcomes.Skipped) as ex:\n", "                except (exceptions.ExitTestException,\n                        exceptions._pytest.outcomes.Skipped) as ex:\n                    if on_error == 'raise':\n                        raise\n")),
+    fire('native-exit-status-is-the-count', 'C15.R6', ('xdoctest/__main__.py', "    if n_failed > 0:\n        return 1\n    else:\n        return 0\n", "    return n_failed\n")),
     fire('plugin-style-not-forwarded', 'C15.R1',
          (PL, "            examples = list(core.parse_doctestables(modpath, style=style,\n                                                    analysis=analysis))\n", "            examples = list(core.parse_doctestables(modpath, analysis=analysis))\n")),
     fire('plugin-analysis-hardcoded', 'C15.R1',
